@@ -261,7 +261,8 @@ def _compile_files_cache(filenames,
         with open(filename, 'rb') as fin:
             key.append(fin.read())
 
-    key = b''.join(key)
+    # Same separator as parse_files() puts between the files.
+    key = b'\n'.join(key)
     cache = diskcache.Cache(cache_dir)
 
     try:
